@@ -23,7 +23,7 @@ import (
 // identical float64.
 
 var evC16 = ev.New("C16", "float64 bit patterns from structured classes (uniform 64-bit non-NaN; every biased exponent 0..2046 with random mantissa; powers of two and ten +-0..3 ulp; integers around 2^53 and 10^k; "+
-	"decimal literals k/10^j; subnormals; +-0; +-Inf; halfway neighbours) placed in frames with 1-3 float columns optionally preceded/followed by a string column of strongly varying length, "+
+	"decimal literals k/10^j; subnormals; +-0; +-Inf; significands that are multiples of 5^q and their neighbours; significands n*2^k; float32-exact values; |f|>=1e229 and <=1e-239 with few digits) placed in frames with 1-3 float columns optionally preceded/followed by a string column of strongly varying length, "+
 	"so that the formatter sees empty, tight and roomy destination buffers; oracle: the ToJSON bytes equal the document assembled with strconv.FormatFloat(f,'f',-1,64) and each text parses back to the same bits; "+
 	"evaluations = float values checked; non-trivial = non-zero finite value; distinct = distinct bit patterns (counted on the first 3*10^6 per process)")
 
@@ -62,6 +62,49 @@ func c16Float(rng *hx.SplitMix, class int) float64 {
 			}
 		case 7: // small integers and simple fractions
 			f = float64(int64(rng.Next()%2000001)-1000000) / float64([]int{1, 2, 4, 5, 8, 10, 100, 1000, 3}[rng.Next()%9])
+		case 9: // the exact-bound / trailing-zero logic of the shortest-digits search for e2 >= 0: the normalised
+			// 53-bit significand m (or 2m+1 / 2m-1, i.e. the interval bounds 4m+2 / 4m-2) is a multiple of 5^q and
+			// the binary exponent is chosen so that about q decimal digits are removed
+			q := int(rng.Next()%22) + 1
+			p5 := uint64(1)
+			for i := 0; i < q; i++ {
+				p5 *= 5
+			}
+			lo, hi := (uint64(1)<<52)/p5+1, (uint64(1)<<53)/p5
+			var m uint64
+			switch rng.Next() % 4 {
+			case 0: // m itself
+				m = (lo + rng.Next()%(hi-lo+1)) * p5
+			case 1: // 2m+1 multiple of 5^q
+				k := (2*lo + rng.Next()%(2*(hi-lo)+1)) | 1
+				m = (k*p5 - 1) / 2
+			case 2: // 2m-1 multiple of 5^q
+				k := (2*lo + rng.Next()%(2*(hi-lo)+1)) | 1
+				m = (k*p5 + 1) / 2
+			default: // a neighbour
+				m = (lo+rng.Next()%(hi-lo+1))*p5 + uint64(rng.Next()%3) - 1
+			}
+			if m >= uint64(1)<<53 || m < uint64(1)<<52 {
+				m = uint64(1)<<52 | (m & (uint64(1)<<52 - 1))
+			}
+			e2 := int(float64(q)/0.30103) + int(rng.Next()%12) - 3
+			if rng.Next()%4 == 0 {
+				e2 = int(rng.Next()%1000) - 60
+			}
+			f = math.Ldexp(float64(m), e2+2)
+		case 10: // significand with many trailing zero bits (n * 2^k), incl. negative binary exponents
+			k := rng.Next() % 52
+			n := rng.Next()%(uint64(1)<<(53-k)) + 1
+			f = math.Ldexp(float64(n<<k), int(rng.Next()%2000)-1100)
+		case 11: // float64 values that are exactly representable as float32
+			f = float64(math.Float32frombits(uint32(rng.Next())))
+		case 12: // huge magnitudes with few significant digits (long runs of zeros) and tiny ones (long runs of leading zeros)
+			d := float64(rng.Next()%100000 + 1)
+			e := int(rng.Next()%80) + 229
+			if rng.Next()%2 == 0 {
+				e = -e - 10
+			}
+			f, _ = strconv.ParseFloat(strconv.FormatFloat(d, 'f', -1, 64)+"e"+strconv.Itoa(e), 64)
 		default: // specials
 			f = []float64{0, math.Copysign(0, -1), math.Inf(1), math.Inf(-1), math.MaxFloat64, math.SmallestNonzeroFloat64, 1, -1, 0.1, 0.3, 1e21, 1e22, 1e23, 9007199254740993, 5e-324, 2.2250738585072014e-308}[rng.Next()%16]
 		}
@@ -81,7 +124,7 @@ func TestC16(t *testing.T) {
 		nf := rapid.IntRange(1, 3).Draw(t, "floatcols")
 		strPos := rapid.SampledFrom([]string{"none", "first", "last"}).Draw(t, "strcol")
 		strMax := rapid.SampledFrom([]int{0, 3, 40, 300}).Draw(t, "strmax")
-		classMix := rapid.SampledFrom([]int{-1, 0, 1, 2, 3, 4, 5, 6, 7, 8}).Draw(t, "class")
+		classMix := rapid.SampledFrom([]int{-1, -1, 0, 1, 2, 3, 4, 5, 6, 7, 8, 9, 9, 10, 11, 12}).Draw(t, "class")
 		tab := hx.Table{}
 		var scol hx.Col
 		if strPos != "none" {
@@ -103,7 +146,7 @@ func TestC16(t *testing.T) {
 			for r := range c.F {
 				class := classMix
 				if class < 0 {
-					class = rng.Intn(9)
+					class = rng.Intn(13)
 				}
 				c.F[r] = c16Float(&rng, class)
 			}
